@@ -6,7 +6,7 @@
    module, int(b, 16)) are Section variables with hypotheses; every Section ends with an Example showing the
    hypotheses satisfiable. *)
 From Coq Require Import String Ascii List Bool ZArith Arith Lia DecimalString.
-From Verif Require Import Base.Str Base.Py Base.Py2 Base.Percent Base.Base64 Base.Html Base.Query C14.Model C14.Source.
+From Verif Require Import Base.Str Base.Py Base.Py2 Base.Percent Base.Base64 Base.Html Base.Query C14.Model C14.Spec C14.Proofs C14.FedProofs C14.Source.
 From VerifGen Require Import C14Src2.
 Import ListNotations.
 Open Scope string_scope.
@@ -742,3 +742,125 @@ Example artifact_ascii_instance :
   let sm := [("SSSSSSSSSSSSSSSSSSSS", Some [Some [("9", "L9"); ("10", "L10")]])] in
   art_ascii art = true /\ sm_ok sm = true /\ artifact2destination sm art = AOk (Some "L10").
 Proof. vm_compute. repeat split. Qed.
+
+
+(* ================================================================== MetadataStore.construct_source_id (round 6)
+   res = {}; for _md in self.metadata.values(): res.update(_md.construct_source_id()); return res
+   The table that Entity.__init__ / Entity.reload_metadata store in self.sourceid is computed from the sources the
+   store holds NOW, by one dict.update per source in the order of self.metadata — nothing is kept between calls.
+   The per-source method (InMemoryMetaData.construct_source_id) is an external call. *)
+Definition enc_mview (v : mview) : pyval :=
+  PObj ((match fst v with Some ds => [("spsso_descriptor", PList (map enc_desc ds))] | None => [] end) ++
+        (match snd v with Some ds => [("idpsso_descriptor", PList (map enc_desc ds))] | None => [] end))%list.
+Definition enc_table (m : fsourcemap) : list (string * pyval) := map (fun kv => (fst kv, enc_mview (snd kv))) m.
+Definition keys_ok {A} (l : list (string * A)) : Prop := forall kv, In kv l -> fst kv <> "__class__".
+
+Lemma keys_ok_is_obj m : keys_ok m -> is_obj (enc_table m) = false.
+Proof.
+  destruct m as [|[k v] r]; intros H; [reflexivity|]. cbn [enc_table map fst is_obj].
+  apply String.eqb_neq. apply (H (k, v)). left. reflexivity.
+Qed.
+
+Lemma keys_ok_upd {A} k (v : A) l : k <> "__class__" -> keys_ok l -> keys_ok (upd k v l).
+Proof.
+  intros Hk Hl [k' v'] Hin. apply In_upd in Hin. destruct Hin as [[-> _]|Hin]; [exact Hk|apply (Hl _ Hin)].
+Qed.
+
+Lemma keys_ok_dict_update {A} (new : list (string * A)) : forall res, keys_ok res -> keys_ok new -> keys_ok (dict_update res new).
+Proof.
+  unfold dict_update. induction new as [|[k v] r IH]; intros res Hr Hn; [exact Hr|].
+  cbn [fold_left fst snd]. apply IH.
+  - apply keys_ok_upd; [apply (Hn (k, v)); left; reflexivity|exact Hr].
+  - intros kv Hin. apply Hn. right. exact Hin.
+Qed.
+
+Lemma set_assoc_enc k v l : set_assoc k (enc_mview v) (enc_table l) = enc_table (upd k v l).
+Proof.
+  induction l as [|[k' v'] r IH]; [reflexivity|]. cbn [enc_table map fst snd set_assoc upd].
+  destruct (String.eqb k k') eqn:E.
+  - apply String.eqb_eq in E. subst k'. reflexivity.
+  - cbn [map fst snd]. f_equal. exact IH.
+Qed.
+
+Lemma update_enc new : forall res,
+  fold_left (fun acc kv => set_assoc (fst kv) (snd kv) acc) (enc_table new) (enc_table res)
+  = enc_table (dict_update res new).
+Proof.
+  unfold dict_update. induction new as [|[k v] r IH]; intros res; [reflexivity|].
+  cbn [enc_table map fold_left fst snd]. rewrite set_assoc_enc. apply IH.
+Qed.
+
+Lemma p2_update_tables res new : keys_ok res -> keys_ok new ->
+  p2_update (PObj (enc_table res)) (PObj (enc_table new)) = PObj (enc_table (dict_update res new)).
+Proof.
+  intros Hr Hn. unfold p2_update, s2. cbn [py_bind]. rewrite (keys_ok_is_obj _ Hr), (keys_ok_is_obj _ Hn). cbn [orb].
+  rewrite update_enc. reflexivity.
+Qed.
+
+Section StoreSourceId.
+  Variable md_csi : pyval -> pyval.                  (* _md.construct_source_id() *)
+  Variable enc_md : source -> pyval.                 (* a loaded source (InMemoryMetaData, MetaDataFile, ...): opaque *)
+  Variable csi : source -> fsourcemap.               (* what its construct_source_id returns *)
+  Hypothesis md_csi_spec : forall src, md_csi (enc_md src) = PObj (enc_table (csi src)).
+  Hypothesis csi_keys : forall src, keys_ok (csi src).
+
+  Definition enc_store (cfg : mdconfig) : pyval :=
+    PObj [("__class__", PStr "MetadataStore"); ("metadata", PObj (map (fun ns => (fst ns, enc_md (snd ns))) cfg))].
+  (* the first key of self.metadata is not the reserved name of the embedding *)
+  Definition names_ok (cfg : mdconfig) : bool :=
+    match cfg with (n, _) :: _ => negb (String.eqb n "__class__") | [] => true end.
+
+  Lemma store_loop body :
+    (forall res src, keys_ok res ->
+       body [PObj (enc_table res)] (enc_md src) = NextS [PObj (enc_table (dict_update res (csi src)))]) ->
+    forall srcs res, keys_ok res ->
+      pyfor2 (map enc_md srcs) [PObj (enc_table res)] body
+      = NextS [PObj (enc_table (fold_left (fun r s => dict_update r (csi s)) srcs res))].
+  Proof.
+    intros Hb. induction srcs as [|src r IH]; intros res Hr; [reflexivity|].
+    cbn [map pyfor2 fold_left]. rewrite (Hb _ _ Hr). apply IH. apply keys_ok_dict_update; [exact Hr|apply csi_keys].
+  Qed.
+
+  Theorem src2_store_construct_source_id_is_model : forall cfg, names_ok cfg = true ->
+    src2_store_construct_source_id md_csi (enc_store cfg)
+    = PObj (enc_table (fold_left (fun r s => dict_update r (csi s)) (map snd cfg) [])).
+  Proof.
+    intros cfg Hn. unfold src2_store_construct_source_id. cbv beta zeta.
+    change (p2_attr (enc_store cfg) "metadata") with (PObj (map (fun ns => (fst ns, enc_md (snd ns))) cfg)).
+    assert (Hobj : is_obj (map (fun ns => (fst ns, enc_md (snd ns))) cfg) = false).
+    { destruct cfg as [|[n src] r]; [reflexivity|]. cbn [names_ok] in Hn. cbn [map fst is_obj].
+      destruct (String.eqb n "__class__"); [discriminate|reflexivity]. }
+    unfold p2_values, dict_view, s1. cbn [py_bind]. rewrite Hobj. rewrite p2_iter_check_list. cbn [py_bind py_iter2].
+    rewrite map_map. cbn [snd].
+    replace (map (fun x : string * source => enc_md (snd x)) cfg) with (map enc_md (map snd cfg)) by (rewrite map_map; reflexivity).
+    match goal with |- context [pyfor2 (map enc_md (map snd cfg)) [PObj []] ?body] =>
+      pose proof (store_loop body) as Hloop end.
+    lapply Hloop; clear Hloop.
+    - intros Hloop. specialize (Hloop (map snd cfg) []). change (PObj []) with (PObj (enc_table [])).
+      rewrite Hloop by (intros kv []). reflexivity.
+    - intros res src Hr. cbv beta zeta. rewrite md_csi_spec. rewrite (p2_update_tables _ _ Hr (csi_keys src)).
+      rewrite py_bindS_good by reflexivity. reflexivity.
+  Qed.
+End StoreSourceId.
+
+(* instance: the sources are metadata documents, their tables InMemoryMetaData.construct_source_id of the model;
+   the result is the model's MetadataStore table of the documents the store holds, whatever the sources are called *)
+Theorem src2_store_source_id : forall (sha1 : string -> string) (md_csi : pyval -> pyval) (enc_md : source -> pyval),
+  (forall e, String.length (sha1 e) = 20) ->
+  (forall src, md_csi (enc_md src) = PObj (enc_table (construct_source_id sha1 src))) ->
+  forall cfg, names_ok cfg = true ->
+  src2_store_construct_source_id md_csi (enc_store enc_md cfg)
+  = PObj (enc_table (store_source_id sha1 (map snd cfg))).
+Proof.
+  intros sha1 md_csi enc_md Hlen Hspec cfg Hn.
+  apply (src2_store_construct_source_id_is_model md_csi enc_md (construct_source_id sha1) Hspec); [|exact Hn].
+  intros src [sid v] Hin. cbn [fst]. apply csi_origin in Hin. destruct Hin as [e [_ [Hs _]]].
+  intros E. subst sid. pose proof (Hlen (fe_eid e)) as L. rewrite E in L. cbn in L. discriminate.
+Qed.
+
+Example store_source_id_hypotheses_satisfiable :
+  exists (md_csi : pyval -> pyval) (enc_md : source -> pyval),
+    forall src, md_csi (enc_md src) = PObj (enc_table (construct_source_id toy_sha1_fed src)).
+Proof.
+  exists (fun v => v), (fun src => PObj (enc_table (construct_source_id toy_sha1_fed src))). reflexivity.
+Qed.
